@@ -7,7 +7,7 @@ CONSTANTS
   Positions = {0}
   Samples = {"s1", "s2"}
   GTSet = "full"
-  ConfigSet = "all"
+  ConfigSet = "allph"
   MaxRuns = 3
   MaxOps = 5
   Variant = "design"
